@@ -36,6 +36,9 @@ FLAVOURS = {
                            "-D_GLIBCXX_ASSERTIONS", "-fno-omit-frame-pointer"]),
     "clang-asan": ("clang++", ["-std=c++20", "-O1", "-g1", "-fsanitize=address,undefined", "-fno-sanitize-recover=all",
                                "-fno-sanitize=object-size", "-fno-omit-frame-pointer"]),
+    # coverage-guided driver (libFuzzer exists only in clang)
+    "clang-fuzz": ("clang++", ["-std=c++20", "-O1", "-g1", "-fsanitize=fuzzer,address,undefined", "-fno-sanitize-recover=all",
+                               "-fno-sanitize=object-size", "-fno-omit-frame-pointer"]),
     "plain-rel":  ("g++", ["-std=c++17", "-O2", "-DNDEBUG"]),
     "plain-dbg":  ("g++", ["-std=c++17", "-O1", "-g"]),
 }
